@@ -177,8 +177,10 @@ var (
 func parseParamValue(
 	input string, executeCommandSubstitution bool,
 ) ([]paramPair, error) {
+	// A name never contains a quote or a backtick: otherwise a quoted value
+	// with '=' inside ("a=b") would be taken for NAME=value.
 	paramRegex := regexp.MustCompile(
-		`(?:([^\s=]+)=)?("(?:\\"|[^"])*"|` + "`(" + `?:\\"|[^"]*)` + "`" + `|[^"\s]+)`,
+		`(?:([^\s="` + "`" + `]+)=)?("(?:\\"|[^"])*"|` + "`(" + `?:\\"|[^"]*)` + "`" + `|[^"\s]+)`,
 	)
 	matches := paramRegex.FindAllStringSubmatch(input, -1)
 
@@ -190,7 +192,9 @@ func parseParamValue(
 
 		if strings.HasPrefix(value, `"`) || strings.HasPrefix(value, "`") {
 			if strings.HasPrefix(value, `"`) {
-				value = strings.Trim(value, `"`)
+				// Remove exactly the enclosing quotes: the value itself
+				// may begin or end with an (escaped) quote.
+				value = value[1 : len(value)-1]
 				value = strings.ReplaceAll(value, `\"`, `"`)
 			}
 
